@@ -18,6 +18,9 @@ import (
 type Delims struct {
 	Left, Right   string
 	CLeft, CRight string
+	// CommentFirst: WithCommentDelims is passed to NewSet before WithDelims (options are independent of each
+	// other, so their order is not supposed to matter)
+	CommentFirst bool `json:",omitempty"`
 }
 
 func (d Delims) L() string {
@@ -52,6 +55,9 @@ func (d Delims) Options() []jet.Option {
 	}
 	if d.CLeft != "" || d.CRight != "" {
 		o = append(o, jet.WithCommentDelims(d.CLeft, d.CRight))
+	}
+	if d.CommentFirst && len(o) == 2 {
+		o[0], o[1] = o[1], o[0]
 	}
 	return o
 }
